@@ -3,6 +3,7 @@ package main
 import (
 	"bytes"
 	"context"
+	"encoding/json"
 	"errors"
 	"fmt"
 	"strings"
@@ -33,6 +34,7 @@ import (
 func init() {
 	register("pool-stress", poolStress)
 	register("pool-history", poolHistory)
+	register("pool-baseline", poolBaseline)
 }
 
 type poolCall struct {
@@ -543,21 +545,68 @@ func (e *histEnv) emit(id int, viaVerb bool) {
 	l.WriteThru(context.Background(), sev, ts, pcs[0], msg, attrs)
 }
 
+// histSetup: the process-level preparation shared by pool-history and pool-baseline
+func histSetup() *histEnv {
+	// custom levels with colours registered / not registered: 41 fg only, 42 fg+bg, 43 no colour
+	_ = slog.RegisterLevel(slog.Level(41), "C41", slog.RegWithColor(92))
+	_ = slog.RegisterLevel(slog.Level(42), "C42", slog.RegWithColor(93, 44))
+	_ = slog.RegisterLevel(slog.Level(43), "C43")
+	slog.SetFlags(slog.LstdFlags | slog.LnoInterrupt)
+	return newHistEnv()
+}
+
+// pool-baseline <probes.json> <out.json>: the bytes of each probe in a process that has never
+// formatted anything else (one process per output format, so that neither pooled objects nor
+// package-level caches can carry anything over from another kind of record).
+func poolBaseline(args []string) int {
+	if len(args) < 2 {
+		fmt.Fprintln(diag, "usage: worker pool-baseline <probes.json> <out.json>")
+		return 2
+	}
+	var probes []int
+	readJSON(args[0], &probes)
+	env := histSetup()
+	res := map[string][]int{}
+	for _, p := range probes {
+		runtime.GC()
+		runtime.GC()
+		env.rec.clear()
+		env.emit(p, false)
+		var b []byte
+		if len(env.rec.payloads) == 1 {
+			b = env.rec.payloads[0]
+		}
+		ints := make([]int, len(b))
+		for i, x := range b {
+			ints[i] = int(x)
+		}
+		res[strconv.Itoa(p)] = ints
+	}
+	f, err := os.Create(args[1])
+	if err != nil {
+		panic(err)
+	}
+	defer f.Close()
+	if err := json.NewEncoder(f).Encode(res); err != nil {
+		panic(err)
+	}
+	return 0
+}
+
 func poolHistory(args []string) int {
 	if len(args) < 2 {
-		fmt.Fprintln(diag, "usage: worker pool-history <script.json> <out.ndjson>")
+		fmt.Fprintln(diag, "usage: worker pool-history <script.json> <out.ndjson> [baselines.json]")
 		return 2
 	}
 	var sc histScript
 	readJSON(args[0], &sc)
 	out := newTraceOut(args[1])
 	defer out.close()
-	// custom levels with colours registered / not registered: 41 fg only, 42 fg+bg, 43 no colour
-	_ = slog.RegisterLevel(slog.Level(41), "C41", slog.RegWithColor(92))
-	_ = slog.RegisterLevel(slog.Level(42), "C42", slog.RegWithColor(93, 44))
-	_ = slog.RegisterLevel(slog.Level(43), "C43")
-	slog.SetFlags(slog.LstdFlags | slog.LnoInterrupt)
-	env := newHistEnv()
+	external := map[string][]int{}
+	if len(args) > 2 {
+		readJSON(args[2], &external)
+	}
+	env := histSetup()
 	debug.SetGCPercent(-1)
 	runtime.LockOSThread()
 	var lastPut, lastGet uintptr
@@ -575,6 +624,14 @@ func poolHistory(args []string) int {
 	baseline := func(probe int) []byte {
 		if p, ok := base[probe]; ok {
 			return p
+		}
+		if ints, ok := external[strconv.Itoa(probe)]; ok { // computed in a process of its own
+			b := make([]byte, len(ints))
+			for i, x := range ints {
+				b[i] = byte(x)
+			}
+			base[probe] = b
+			return b
 		}
 		runtime.GC()
 		runtime.GC() // sync.Pool is emptied after two collections: the next Get builds a fresh object
